@@ -30,17 +30,22 @@ def main():
         sys.exit('patch.diff or demo missing in %s' % wt)
     demo = os.path.basename(demos[0])
     res = {}
+    # the worktree is put into exactly the state patch.diff describes (git stash is shared between worktrees: not used)
+    sh('git checkout -- pyx12', wt)
+    rc, out = sh('git apply patch.diff', wt)
+    if rc:
+        sys.exit('patch.diff does not apply in the worktree: %s' % out)
     rc, out = sh('git diff --stat -- pyx12', wt)
     res['diffstat'] = out.strip().splitlines()[-1] if out.strip() else 'EMPTY'
     rc, out = sh('%s -m pytest -q -p no:cacheprovider pyx12/test 2>&1 | tail -1' % PY, wt)
     res['suite_with_change'] = out.strip()
     rc1, out1 = sh('%s %s' % (PY, demo), wt)
     res['demo_with_change_rc'] = rc1
-    sh('git stash -q', wt)
+    sh('git apply -R patch.diff', wt)
     try:
         rc0, out0 = sh('%s %s' % (PY, demo), wt)
     finally:
-        sh('git stash pop -q', wt)
+        sh('git apply patch.diff', wt)
     res['demo_without_change_rc'] = rc0
     confirmed = ('454 passed' in res['suite_with_change']) and rc1 != 0 and rc0 == 0
     res['confirmed'] = confirmed
@@ -73,7 +78,7 @@ def main():
         meta = {'id': keep, 'breaks_property': keep.split('-')[0], 'confirmed': confirmed,
                 'what_i_ran': ['cd <scratch worktree> && /venv/bin/python -m pytest -q -p no:cacheprovider pyx12/test  -> %s' % res['suite_with_change'],
                                '/venv/bin/python %s with the change -> exit %d' % (demo, rc1),
-                               '/venv/bin/python %s without the change (git stash) -> exit %d' % (demo, rc0),
+                               '/venv/bin/python %s without the change (git apply -R) -> exit %d' % (demo, rc0),
                                'git -C /repo apply patch.diff; python3 sa/check.py <every property>; git -C /repo checkout -- .'],
                 'caught_by': caught, 'needs_to_manifest': '', 'summary': ''}
         mp = os.path.join(d, 'meta.json')
